@@ -39,6 +39,26 @@ structure Stats where
   bads : Nat := 0
   jfails : Nat := 0
 
+/-- Documented status code of an update outcome kind. -/
+def documentedCode (kind : String) : String :=
+  if kind == "none" then "0" else if kind == "inst" then "1" else if kind == "bad" then "3" else "-1"
+
+/-- If the `ret=` field is an update result whose code is not the documented one for its outcome,
+    report it and substitute the documented code so that the rest of the line can be compared. -/
+def fixStatus (parts : List String) : List String × Option String :=
+  match parts with
+  | [] => ([], none)
+  | p :: rest =>
+    if p.startsWith "ret=s" then
+      match (p.drop 5).toString.splitOn ":" with
+      | [code, kind] =>
+        let want := documentedCode kind
+        if code != want then
+          (s!"ret=s{want}:{kind}" :: rest, some s!"C15: status code {code} delivered for outcome '{kind}', documented value is {want}")
+        else (parts, none)
+      | _ => (parts, none)
+    else (parts, none)
+
 def processBlock (b : Block) (st : Stats) : IO Stats := do
   match b.bad with
   | some why => IO.println s!"BAD {b.id} {why}"; return { st with bads := st.bads + 1, hists := st.hists + 1 }
@@ -58,6 +78,12 @@ def processBlock (b : Block) (st : Stats) : IO Stats := do
       IO.println s!"BAD {b.id} step={k} unparsable-op {" ".intercalate opParts}"
       return { st with bads := st.bads + 1 }
     | some op =>
+      -- C15: the status code delivered through the C ABI must be the documented one for the outcome
+      -- (the harness derives the outcome from the message text, the code is what the C struct carried)
+      let (obsParts, abiBad) := fixStatus obsParts
+      if let some why := abiBad then
+        IO.println s!"J C15 {b.id} step={k} side=impl {why}"
+        st := { st with jfails := st.jfails + 1 }
       match parseObs obsParts with
       | none =>
         IO.println s!"BAD {b.id} step={k} unparsable-obs {" ".intercalate obsParts}"
